@@ -39,7 +39,7 @@ def proj_state(state):
                 continue
             data[d] = {"strategy": rec["strategy"],
                        "keys": {k: [v[0], v[1], v[2] != "Deleted"] for k, v in rec["keys"].items()
-                                if k not in LOCAL_KEYS and v[2] != "Deleted"}}
+                                if k not in LOCAL_KEYS}}
         out[n] = {"alive": True, "role": s["role"], "pid": s["pid"], "pending": s["pending"],
                   "primary_view": sorted(m[0] for m in s["members"] if m[1] == "Primary"),
                   "data": data}
